@@ -3,8 +3,20 @@ from props_common import COMMON_TRUSTED
 CONFIG = {
     "areas": ["fuzz", "auth"],
     "lean": ["VProps.C18", "VProps.C02", "VProps.C06", "VProps.C07", "VProps.C14", "VProps.C17"],
-    "sources": ["VProps/C18.lean", "VModel/Json.lean", "VModel/Auth.lean", "VModel/Event.lean", "VProps/C02.lean", "VProps/C06.lean", "VProps/C07.lean", "VProps/C14.lean", "VProps/C17.lean"],
+    "sources": ["VProps/C18.lean", "VModel/Json.lean", "VModel/Auth.lean", "VModel/Event.lean", "VProps/C02.lean", "VProps/C06.lean", "VProps/C07.lean", "VProps/C14.lean", "VProps/C17.lean",
+                # accessors of the three event structs and state resolution with explicit panic sites (inventory: lean/VModel/PanicSites.md)
+                "VModel/EventParse.lean", "VModel/EventAccessors.lean", "VModel/StateRes.lean", "VModel/StateResPanic.lean",
+                "VProofs/EventAccessors.lean", "VProofs/EventAccessorsRedact.lean", "VProofs/StateResPanic.lean", "VProofs/StateResNoPanic.lean",
+                "VDriver/Fuzz.lean"],
     "theorems": ["V.C18.version_table_total", "V.C18.version_table_keys", "V.C18.compact_no_panic", "V.C18.canonical_no_panic",
+                 # every method of the PDU interface on events NewEventFromUntrustedJSON returned (Redact() included; Sign() apart)
+                 "V.C18.no_panic_accessors", "V.C18.no_panic_sign", "V.C18.no_panic_accessors_trusted",
+                 # the two preconditions those proofs forced, as kernel-checked counter-examples (both reproduced on the code: D1, D3)
+                 "V.C18.sign_panics", "V.C18.roomID_after_redact_panics", "V.C18.trusted_roomID_panics",
+                 # state resolution (v1 / v2 / v2.1, current and deprecated entry points) and the orderings: refinement to
+                 # VModel.StateRes + no site fires under the stated preconditions; the acyclicity precondition is forced (D2)
+                 "V.C18.resolve_refines", "V.C18.resolve_refines_deprecated", "V.C18.no_panic_resolve",
+                 "V.C18.no_panic_resolve_deprecated", "V.C18.no_panic_orderings", "V.C18.resolve_cycle_panics",
                  # no-panic theorems of the other models (each states that the panic sites of that model are unreachable)
                  "V.C02.sign_never_panics", "V.C06.no_panic", "V.C07.no_panic_allowed", "V.C14.collect_no_panic", "V.C17.splitID_no_panic"],
     "rule": "every public entry point reachable with remote data (untrusted / trusted / headered event parsing + all accessors + signature "
@@ -14,6 +26,16 @@ CONFIG = {
             "mutations of generated room histories (field retyping, boundary integers, malformed IDs, 60% with a recomputed content hash so that "
             "the event is accepted unredacted) and raw byte mutations, for all 16 room versions; every op is non-trivial",
     "nontrivial": lambda op, impl: True,
-    "trusted": COMMON_TRUSTED + ["panics inside gjson / sjson / encoding/json / net/http / macaroon, stack and memory exhaustion are outside the models: covered only by this stream"],
-    "assumptions": ["trusted-JSON constructors are fed arbitrary bytes for parsing and accessors only (Redact() on trusted JSON is the caller's contract)"],
+    "trusted": COMMON_TRUSTED + [
+        "panics inside third-party parsers and libraries (gjson / sjson / encoding/json / net/http / macaroon / go-set / lane) are outside the models: covered only by this stream",
+        "stack exhaustion on deeply nested JSON and memory exhaustion are outside the models; the three unguarded recursions of stateresolutionv2.go over auth events ARE modelled (a recursion deeper than the number of events supplied is a panic site)",
+        "the site inventory lean/VModel/PanicSites.md was compiled by reading the fourteen files it lists; the fuzz.event op now runs the accessor and state-resolution models on every generated op (a site the code lacks, or a panic the model lacks, breaks the tie)",
+        "state resolution is proved panic-free over the event view of VModel.Event (hypothesis EvOK per event = what no_panic_accessors establishes on the parsed form); the two views read duplicate case-variant members differently",
+    ],
+    "assumptions": [
+        "trusted-JSON constructors are fed arbitrary bytes for parsing and accessors only (Redact() / Sign() on trusted JSON, RoomID() of a version-12 create event whose trusted JSON carries its own event_id, EventID() after NewEventFromTrustedJSONWithEventID(\"\") are the caller's contract)",
+        "the hash returns 32 bytes (SHA-256)",
+        "state resolution v2 / v2.1: at least two state sets (caller), and no cycle among the auth events (true of hashed event IDs unless the hash collides; NOT guaranteed in room versions 1-2: known defect D2 of PanicSites.md)",
+        "Sign() is outside no_panic_accessors: it panics on an accepted event whose signatures member does not decode (D1); accessors after Redact() are outside it when the event carries a case variant of room_id (D3)",
+    ],
 }
